@@ -176,7 +176,7 @@ func cmdWorker(args []string) int {
 		seed := sim.MixSeed(*base, *prop, idx)
 		what = fmt.Sprintf("prop=%s base=%d index=%d", *prop, *base, idx)
 		wd := watchdog(120*time.Second, &what)
-		tp := sim.NewGenTapes(seed)
+		tp := sim.TapesForRun(*base, *prop, idx)
 		ropt := opt
 		ropt.Sample = len(rep.Samples) < 2 && n%7 == 3
 		t0 := time.Now()
@@ -437,10 +437,9 @@ func replaySequence(c sim.Checker, f *Finding, quiet bool) int {
 	var last *sim.Outcome
 	for n := 0; n < sq.Count; n++ {
 		idx := sq.From + uint64(n)*sq.Stride
-		seed := sim.MixSeed(sq.Base, f.Property, idx)
 		what := fmt.Sprintf("sequence replay %s index %d", f.Property, idx)
 		wd := watchdog(120*time.Second, &what)
-		last = sim.SafeRun(c, sim.NewGenTapes(seed), sim.RunOpt{Race: sim.RaceEnabled, Sample: n == sq.Count-1})
+		last = sim.SafeRun(c, sim.TapesForRun(sq.Base, f.Property, idx), sim.RunOpt{Race: sim.RaceEnabled, Sample: n == sq.Count-1})
 		wd.Stop()
 		if last.HarnessErr != "" {
 			fmt.Fprintln(os.Stderr, "HARNESS ERROR:", last.HarnessErr)
@@ -483,7 +482,7 @@ func cmdDigest(args []string) int {
 		}
 		what := fmt.Sprintf("digest %s index %d", *prop, idx)
 		wd := watchdog(120*time.Second, &what)
-		last = sim.SafeRun(c, sim.NewGenTapes(sim.MixSeed(*base, *prop, idx)), sim.RunOpt{})
+		last = sim.SafeRun(c, sim.TapesForRun(*base, *prop, idx), sim.RunOpt{})
 		wd.Stop()
 	}
 	if last == nil || last.HarnessErr != "" {
@@ -599,7 +598,7 @@ func cmdTrace(args []string) int {
 	for i := 0; i < *count; i++ {
 		idx := *from + uint64(i)
 		seed := sim.MixSeed(*base, *prop, idx)
-		o := sim.SafeRun(c, sim.NewGenTapes(seed), sim.RunOpt{KeepLog: true, Sample: true, Race: sim.RaceEnabled})
+		o := sim.SafeRun(c, sim.TapesForRun(*base, *prop, idx), sim.RunOpt{KeepLog: true, Sample: true, Race: sim.RaceEnabled})
 		fmt.Fprintf(w, "== run %d seed %d steps %d trace %x prog %x nontrivial %v harness %q\n", idx, seed, o.Steps, o.TraceHash, o.ProgHash, o.NonTrivial, o.HarnessErr)
 		for _, l := range o.Log {
 			fmt.Fprintln(w, l)
@@ -681,6 +680,7 @@ func cmdRun(args []string) int {
 		}
 	}
 	workers := envInt("VERIF_WORKERS", 16)
+	deepWorkers := 0
 	plainRuns, raceRuns := meta.QuickRuns, meta.QuickRace
 	deadline := 0.0
 	if *tier == "thorough" {
@@ -739,6 +739,16 @@ func cmdRun(args []string) int {
 		}
 		b := mk(self, false, plainRuns, np, 0)
 		b = append(b, mk(raceBin, true, raceRuns, nr, 100)...)
+		// every second worker takes its indices from the deep range: the same generators
+		// with larger bounds (more tasks, longer histories, bigger programs and trees)
+		if os.Getenv("VERIF_NO_DEEP") == "" {
+			for i := range b {
+				if i%2 == 1 {
+					b[i].from += sim.DeepFrom
+					deepWorkers++
+				}
+			}
+		}
 		batches = append(batches, b)
 	} else {
 		batches = append(batches, mk(self, false, plainRuns, workers, 0))
@@ -1084,6 +1094,7 @@ func cmdRun(args []string) int {
 		"known_findings_observed":               len(knownHit),
 		"order_independence_runs_cross_checked": orderChecked,
 		"workers":                               workers,
+		"workers_on_deep_bounds":                deepWorkers,
 	}
 	ev := map[string]any{
 		"property_id": *prop,
